@@ -7,6 +7,7 @@ mod c05;
 mod c16;
 mod c01;
 mod c18;
+mod c17;
 
 use util::Out;
 
@@ -27,6 +28,7 @@ fn main() {
         "C16" => c16::run(&mut out),
         "C01" => c01::run(&mut out),
         "C18" => c18::run(&mut out),
+        "C17" => c17::run(&mut out),
         _ => {
             eprintln!("unknown property {prop}");
             std::process::exit(2);
